@@ -201,6 +201,7 @@ type Gen struct {
 	L           *Layout
 	entry       *State
 	touched     map[string]bool // global facts already emitted: name@arrayversion
+	inElemInv   map[int]bool    // element invariants currently being instantiated (no nested instantiation of the same one)
 	keys        map[string]Sort // heap keys used
 	reveal      map[string]bool // opaque macros expanded in this context
 	noSideFacts bool
@@ -276,10 +277,20 @@ func (g *Gen) emitGlobalInv(n int, inv *GlobalInv, st *State, idx *Term) {
 	if g.touched[sig] {
 		return
 	}
+	if idx != nil && g.inElemInv[n] {
+		// the element invariant mentions another element of the same table (t[i] <= t[i+1]): do not instantiate it
+		// again for that element, or the chain never ends. Fewer facts, never wrong ones.
+		return
+	}
 	g.touched[sig] = true
 	env := &Env{g: g, cur: st, old: nil, vars: map[string]SVal{}}
 	if idx != nil {
 		env.vars[inv.Var] = iv(*idx)
+		if g.inElemInv == nil {
+			g.inElemInv = map[int]bool{}
+		}
+		g.inElemInv[n] = true
+		defer func() { g.inElemInv[n] = false }()
 	}
 	g.assume(env.boolean(inv.E))
 }
